@@ -66,3 +66,59 @@ MUTANTS = [
     ("from_uri: duplicate check against lower-cased names only", T, "            if k in params:\n                raise cls._uri_parse_error(f\"duplicate parameter ({k!r})\")\n            params[k] = v\n", "            if k in params:\n                raise cls._uri_parse_error(f\"duplicate parameter ({k!r})\")\n            params[k.lower()] = v\n", "refute", "_from_parsed_uri"),
     ("from_uri: the last value of a repeated parameter wins", T, "            if k in params:\n                raise cls._uri_parse_error(f\"duplicate parameter ({k!r})\")\n", "", "refute", "_from_parsed_uri"),
 ]
+
+
+# ---- the label is percent-decoded exactly once --------------------------------------------------------------------------
+UQ = z3.Function("unquote", S, S)
+
+
+def _label_setup(it, args):
+    n = {"unquote": 0}
+
+    def unq(i, a, k):
+        n["unquote"] += 1
+        return SStr(UQ(i.to_z3(a[0])), "str")
+
+    seen = {}
+
+    def adapt(i, a, k):
+        seen.update(k)
+        return __import__("pyvc.values", fromlist=["SDict"]).SDict({})
+
+    it.genv.vars["unquote"] = SStub(unq, "unquote")
+    it.genv.vars["parse_qsl"] = SStub(lambda i, a, k: __import__("pyvc.values", fromlist=["SList"]).SList([]), "parse_qsl (no parameters)")
+    cls = args["cls"]
+    cls.fields["_uri_parse_error"] = SStub(lambda i, a, k: SExc(exc_class("ValueError")), "_uri_parse_error")
+    cls.fields["_adapt_uri_params"] = SStub(adapt, "_adapt_uri_params")
+    it.genv.vars["new.*"] = None
+    it.run.ghost.update({"n": n, "seen": seen})
+    return None
+
+
+def _label_post(it, env):
+    g = it.run.ghost
+    # NOTE: the function's parameter is itself called ``result``: the entry value is read from it.entry
+    src = it.to_z3(it.resolve(it.entry["result"]).fields["path"])
+    once = UQ(z3.SubString(src, 1, z3.Length(src)))
+    old = it.spec
+    it.spec = True
+    try:
+        stripped = it.to_z3(it.m_text_strip(SStr(once, "str")))
+    finally:
+        it.spec = old
+    lab = g["seen"].get("label")
+    return z3.And(z3.BoolVal(g["n"]["unquote"] == 1), (stripped == z3.StringVal("")) if lab is None else it.to_z3(lab) == stripped)  # a blank label is handed on as None (and refused there)
+
+
+CONTRACTS.append(Contract(
+    "TOTP._from_parsed_uri[label]", f"{T}::TOTP._from_parsed_uri",
+    params={"cls": Obj(cls=(T, "TOTP"), is_class=True), "result": Obj(fields={"path": Str(), "query": Str()})},
+    setup=_label_setup,
+    globals={"new.*": SStub(lambda i, a, k: SObj("TOTP instance", fresh=True), "cls(**kwds)")},
+    requires=[lambda it, env: z3.Not(z3.Contains(UQ(z3.SubString(it.to_z3(it.resolve(it.entry["result"]).fields["path"]), 1, z3.Length(it.to_z3(it.resolve(it.entry["result"]).fields["path"])))), z3.StringVal(":")))],
+    raises={"ValueError": None},
+    ensures=[("the label handed on is the path percent-decoded exactly ONCE (then stripped): a literal '%41' in a label survives", _label_post)],
+    descr="every path without an issuer prefix, no query parameters",
+))
+
+MUTANTS.append(("from_uri: label percent-decoded a second time", T, "            label = label.strip() or None", "            label = unquote(label).strip() or None", "refute", r"_from_parsed_uri\[label"))
